@@ -70,5 +70,11 @@ if ok:
     meta["confirmed_by_me"] = ran
     meta["detected_by"] = detected
     meta["caught_by_own_property"] = meta["property"] in detected
+    prev = os.path.join(dst, "meta.json")
+    if os.path.exists(prev) and "caught_at_first_try" in json.load(open(prev)):
+        meta["caught_at_first_try"] = json.load(open(prev))["caught_at_first_try"]
+    else:
+        meta["caught_at_first_try"] = meta["caught_by_own_property"]
+        meta["first_try_detected_by"] = sorted(detected)
     json.dump(meta, open(os.path.join(dst, "meta.json"), "w"), indent=1)
 print("SEED", sid, "confirmed" if ok else "REJECTED", "| property", meta["property"], "| detected by:", {k: v[0][:160] for k, v in detected.items()})
